@@ -84,7 +84,7 @@ def run(ctx):
     lean_obligations(ctx)
     rng = ctx.rng
     ctx.extra["rule"] = ("seeded models (Linear / Conv2d / LayerNorm stacks), weights in all six qtypes (per-axis and automatically grouped), activations None/qint8/qfloat8 (calibrated), dtype float32/float16/bfloat16, "
-                         "frozen or not, serializer pickle / weights_only / safetensors, target same-quantized / default-quantized / requantize(), one or two save-load cycles. distinct = the configuration tuple; non-trivial = all")
+                         "frozen or not, serializer pickle / weights_only / safetensors, target same-quantized (also frozen beforehand, or loaded twice) / default-quantized / requantize(), one or two save-load cycles. distinct = the configuration tuple; non-trivial = all")
     n = 120 if not ctx.thorough else 1200
     lines, expect = [], []
     for _ in range(n):
@@ -95,9 +95,10 @@ def run(ctx):
         aq = rng.choice([None, None, "qint8", "qfloat8_e4m3fn"])
         frozen = rng.random() < 0.7
         how = rng.choice(["pickle", "weights_only", "safetensors"])
-        target = rng.choice(["same", "default", "requantize"])
+        target = rng.choice(["same", "default", "requantize"] + (["same-frozen", "same-loaded-twice"] if frozen else []))
         cfg = {"kind": kind, "weights": wq, "activations": aq, "dtype": str(dt), "frozen": frozen, "serializer": how, "target": target}
         fresh = arch(kind, dt, model)
+        other = arch(kind, dt, model) if target == "same-loaded-twice" else None
         quantize(model, weights=q.qtypes[wq], activations=None if aq is None else q.qtypes[aq])
         x = torch.randn(shape).to(dt)
         with torch.no_grad():
@@ -128,8 +129,16 @@ def run(ctx):
                 if target == "requantize":
                     requantize(fresh, sd2)
                 else:
-                    if target == "same":
+                    if target in ("same", "same-frozen", "same-loaded-twice"):
                         quantize(fresh, weights=q.qtypes[wq], activations=None if aq is None else q.qtypes[aq])
+                        if target == "same-frozen":
+                            # the freshly quantized target (its own random weights) is frozen before it receives the state
+                            freeze(fresh)
+                        elif target == "same-loaded-twice":
+                            # the target first receives the state of another frozen model of the same configuration
+                            quantize(other, weights=q.qtypes[wq], activations=None if aq is None else q.qtypes[aq])
+                            freeze(other)
+                            fresh.load_state_dict(other.state_dict())
                     else:
                         quantize(fresh)
                     fresh.load_state_dict(sd2)
